@@ -15,3 +15,4 @@ import Indi.Properties.Dec.Switch
 #print axioms Indi.Decisions.switchIsOtherOn_agrees
 #print axioms Indi.Decisions.switchNoOtherOn_agrees
 #print axioms Indi.Decisions.switch_assign_from_source
+#print axioms Indi.Decisions.switchIsOtherOn_all_agree
